@@ -587,3 +587,72 @@ def rule_handed_over_not_freed(ctx):
                     ctx.violated("OWNXFER", key, f.where(line), "`%s` is handed to a tree/atom group in the loop, freed by the failure cleanup, and not cleared after the hand-over: a failure in a later iteration frees an object the container owns" % v)
     ctx.floor("OWNXFER", 3, n, "(working pointers handed to a container inside a loop and freed by the cleanup)")
     return n
+
+
+def rule_alias_not_freed_before_cleanup(ctx):
+    """ALIASFREE (C16): a routine whose failure cleanup does `free(rec->field)` owns that block through the field until it
+    returns.  A local that is just another name for the same block (`info = rec->field`) is therefore not freed in an error
+    branch that goes on to the cleanup - unless the field is cleared there - or the block is freed twice: the failure is still
+    reported, but the allocator aborts the process (or corrupts the heap) while reporting it."""
+    from .codec import ast_walk
+    from .facts import calls_in, is_null
+    from .rules_loops import seq_of, _terminates
+    prog = ctx.prog
+    n = 0
+    for f in prog.lib_funcs():
+        ast = f.raw.get("ast")
+        if not ast:
+            continue
+        cleanup = set()
+
+        def vis(nd, st):
+            if nd[0] == "if" and nd[1] is not None and not [a for a in st if a[0] in ("for", "while", "do", "if")] and any(x[0] == "var" and x[1] in ("ret_value", "ret") for x in walk(nd[1], True)):
+                for e, _k in seq_of(nd[2]):
+                    for c in calls_in(e, True):
+                        if c[1] in ("free", "HDfree") and c[3] and kind(strip(c[3][0])) == "mem":
+                            cleanup.add(render(strip(c[3][0])))
+            return True
+
+        ast_walk(ast, vis)
+        if not cleanup:
+            continue
+        alias = {}
+        for _b, _i, _s, x in f.nodes(True):
+            if x[0] == "asg" and x[1] == "=" and kind(strip(x[2])) == "var":
+                r = strip(x[3])
+                if kind(r) == "mem" and render(r) in cleanup:
+                    alias[strip(x[2])[1]] = render(r)
+                elif kind(r) == "asg" and kind(strip(r[2])) == "mem" and render(strip(r[2])) in cleanup:
+                    alias[strip(x[2])[1]] = render(strip(r[2]))
+            elif x[0] == "decl":
+                for d in x[1]:
+                    if d[2] is not None and kind(strip(d[2])) == "mem" and render(strip(d[2])) in cleanup:
+                        alias[d[0]] = render(strip(d[2]))
+        if not alias:
+            continue
+        for v, m in sorted(alias.items()):
+            n += 1
+            key = "ALIASFREE:%s:%s" % (f.name, v)
+            bad = []
+
+            def vis2(nd, st):
+                if nd[0] == "block":
+                    kids = nd[1]
+                    for i, k in enumerate(kids):
+                        if k[0] == "s" and k[1] is not None and any(c[1] in ("free", "HDfree") and c[3] and kind(strip(c[3][0])) == "var" and strip(c[3][0])[1] == v for c in calls_in(k[1], True)):
+                            rest = kids[i + 1:]
+                            cleared = any(r_[0] == "s" and r_[1] is not None and any(x[0] == "asg" and x[1] == "=" and kind(strip(x[2])) == "mem" and render(strip(x[2])) == m and is_null(x[3]) for x in walk(r_[1], True)) for r_ in rest)
+                            leaves = any(_terminates(r_) for r_ in rest) and not any(r_[0] == "s" and kind(r_[1]) == "ret" for r_ in rest)
+                            in_cleanup = any(a[0] == "if" and a[1] is not None and any(x[0] == "var" and x[1] in ("ret_value", "ret") for x in walk(a[1], True)) for a in st)
+                            if leaves and not cleared and not in_cleanup:
+                                bad.append(k)
+                return True
+
+            ast_walk(ast, vis2)
+            if bad:
+                line = bad[0][-3] if isinstance(bad[0][-3], int) else f.line
+                ctx.violated("ALIASFREE", key, f.where(line), "`free(%s)` in an error branch that goes on to the cleanup, where `free(%s)` frees the same block again (`%s` is another name for it)" % (v, m, v))
+            else:
+                ctx.holds("ALIASFREE", key, f.where(), "`%s` names the block the cleanup frees through `%s`; no error branch frees it first" % (v, m), nontrivial=True)
+    ctx.floor("ALIASFREE", 2, n, "(locals that alias a block freed by the failure cleanup)")
+    return n
